@@ -80,6 +80,9 @@ mkrsa(const json_t *jwk)
         break;
 
     case JSON_INTEGER:
+        if (json_integer_value(exp) < 0)
+            return NULL;
+
         bn = BN_new();
         if (!bn)
             return NULL;
